@@ -385,7 +385,7 @@ def hist(vals):
     return h
 
 
-def corpus_check(ctx, fam, build, K, extra_adv, level_extra, assumptions, floors, nlo=-1, nhi=3, stage1=False, second_pass=None, ref_tree="src"):
+def corpus_check(ctx, fam, build, K, extra_adv, level_extra, assumptions, floors, nlo=-1, nhi=3, stage1=False, second_pass=None, ref_tree="src", unbuildable_is_violation=False):
     corp = corpus.Corpus(ctx, fam)
     corp.driver_bin = runner.build_driver(ctx)
     corp.stage1 = stage1
@@ -411,6 +411,8 @@ def corpus_check(ctx, fam, build, K, extra_adv, level_extra, assumptions, floors
                 front_end.append((pid, msg))
     else:
         corp.quarantine_unbuildable(("out",))
+        if unbuildable_is_violation:
+            front_end = list(corp.unbuildable.items())
     pairs = corp.pairs(ref_tree=ref_tree)
     if not pairs:
         raise CheckError("no corpus package survived compilation")
@@ -794,3 +796,22 @@ def plan_C07(ctx):
 
 
 CLAIMED["C07"] = plan_C07
+
+
+def plan_C13(ctx):
+    def build(corp):
+        ps = gen.c13_programs()
+        for p in ps:
+            corp.add(p)
+        return {"bystander_programs": len(ps), "shapes": [n for n, _ in gen.C13_BODIES],
+                "declarations": "plain functions, value/pointer-receiver methods, generic function, constant, package-level slice / function-valued variable / counter, closures (eta shapes with later mutation of callee or receiver, capture by reference), defer/recover, native range"}
+
+    extra = {
+        "bounds": {"ints": "64-bit symbolic a, b; guard symbolic", "outside": "bystander shapes not generated; free-floating comments (no behaviour); side-effect imports"},
+        "explanation": "every file holds a generator (so the file is processed) and bystander declarations; drivers call the bystanders with symbolic arguments in the source package and in the generated package; log = results; flat equality. A type error in the generated file (the source type-checks) is a front-end refutation.",
+    }
+    return corpus_check(ctx, "c13", build, 4, 0, extra, [PROGRAM_DIM, "bystanders do not use the co API, so the reference side is ordinary Go"],
+                        floors={"drivers_holds": 10}, unbuildable_is_violation=True)
+
+
+CLAIMED["C13"] = plan_C13
